@@ -185,6 +185,15 @@ def make_case(rnd, idx, force_sw=None, org_p=0.35, skip=False, lastskip=False):
             code_ = crops[-1][0]
             rows[code_] = rows[code_][:156] + "S" + rows[code_][157:]
             crops[-1][3]["org"] = (o[0], o[1], "S", o[3])
+    # rows of crops that are not in the rotation, among them codes that extend a rotation code (WRA/WRC for WR, GRE for GR, ...):
+    # the reader must select by the exact 3-character code whatever the order of the rows; every value differs per row
+    decoys = [c_ for c_ in ["WRA", "WRC", "GRE", "GR", "SMX", "KA", "WWX", "ZRB", "SOZ"] if rnd.random() < 0.5]
+    have = set(c_[0] for c_ in crops)
+    for dc in decoys:
+        if dc not in have and dc not in rows:
+            ds = begin + datetime.timedelta(days=rnd.randrange(200, 500))
+            rows["~" + dc], _ = automan_row(rnd, f, dc, ds, ds + datetime.timedelta(days=120), ds + datetime.timedelta(days=rnd.randrange(125, 160)),
+                                            False, False, None, (rnd.choice(ORG_FERT), rnd.choice([11, 22, 33]), rnd.choice(["H", "S"]), rnd.randrange(1, 9)))
     if crops[0][0] not in rows:
         rows[crops[0][0]], _ = automan_row(rnd, f, crops[0][0], begin, begin, begin, True, True, None, org0)
     else:
@@ -192,7 +201,8 @@ def make_case(rnd, idx, force_sw=None, org_p=0.35, skip=False, lastskip=False):
     return {"idx": idx, "fmt": f, "begin": begin, "end": end, "B": daynum(begin), "E": daynum(end), "crops": crops, "rows": rows,
             "sw": (automan, autofert, autoirri, autohar), "fid": "R%d" % rnd.randrange(1, 9),
             "soil": rnd.choice(["001", "041", "075", "160"]), "fcode": rnd.choice(["109_120", "109_121"]),
-            "weather": rnd.choice(["historical", "extreme"])}
+            "weather": rnd.choice(["historical", "extreme"]), "row_seed": rnd.randrange(1 << 30),
+            "spell_seed": rnd.randrange(1 << 30)}
 
 
 def write_project(ex, case, prefix="c16_", extreme=False):
@@ -234,13 +244,29 @@ def write_project(ex, case, prefix="c16_", extreme=False):
     open(os.path.join(dst, "crop_%s.txt" % name), "w").write(
         "Field_ID    crp  sowing harvst Rex yld autorg variety comment\n" + "".join(l + "\n" for _, l in cl) + "end\n")
     hdr = open(os.path.join(src, "automan.txt")).read().split("\n")[0]
-    open(os.path.join(dst, "automan.txt"), "w").write(hdr + "\n" + "".join(r + "\n" for r in case["rows"].values()))
+    order = list(case["rows"].values())
+    random.Random(case["row_seed"]).shuffle(order)
+    open(os.path.join(dst, "automan.txt"), "w").write(hdr + "\n" + "".join(r + "\n" for r in order))
+    # the four switches: on the batch line in one of the accepted spellings (table featureSwitchStrToID of config.go), the
+    # OPPOSITE value in the project's config.yml
+    srnd = random.Random(case["spell_seed"])
+    table = switch_spellings()
+    cfgp = os.path.join(dst, "config.yml")
+    cfg = open(cfgp).read()
+    spelled = []
+    for key, val in zip(("AutoSowingHarvest", "AutoFertilization", "AutoIrrigation", "AutoHarvest"), case["sw"]):
+        sp = srnd.choice(sorted(k_ for k_, v_ in table.items() if v_ == bool(val)))
+        spelled.append("%s=%s" % (key, sp))
+        cfg, n_ = re.subn(r"(?m)^%s:.*$" % key, "%s: %d" % (key, 0 if val else 1), cfg)
+        assert n_ == 1, key
+    open(cfgp, "w").write(cfg)
+    case["spelled"] = spelled
     annual = "3110" if f < 2 else "1031"
     a, b, c, d = case["sw"]
     return ("project=%s WeatherFolder=%s soilId=%s fcode=%s plotNr=10001 Altitude=73 Latitude=52.6 poligonID=1 "
-            "CropFileFormat=txt AutoSowingHarvest=%d AutoFertilization=%d AutoIrrigation=%d AutoHarvest=%d ManagementEvents=1 "
+            "CropFileFormat=txt %s ManagementEvents=1 "
             "OutputIntervall=0 Dateformat=%d StartYear=%d EndDate=%s AnnualOutputDate=%s resultfolder=%s"
-            % (name, case["weather"] if extreme else "historical", case["soil"], case["fcode"], a, b, c, d, f, case["begin"].year, fmt_date(case["end"], f), annual,
+            % (name, case["weather"] if extreme else "historical", case["soil"], case["fcode"], " ".join(case["spelled"]), f, case["begin"].year, fmt_date(case["end"], f), annual,
                os.path.join(ex, "R", name)))
 
 
@@ -249,6 +275,18 @@ def parse_log_date(tok, f):
     y = int(y) + (1900 if len(y) == 2 else 0)
     d, m = (int(a), int(b)) if f < 2 else (int(b), int(a))
     return daynum(datetime.date(y, m, d))
+
+
+def switch_spellings():
+    """accepted spellings of an on/off switch, read from the source (map featureSwitchStrToID in hermes/config.go)"""
+    if "spell" not in _cache:
+        src = open(os.path.join(REPO, "hermes", "config.go")).read()
+        m = re.search(r"var featureSwitchStrToID = map\[string\]FeatureSwitch\{(.*?)\n\}", src, re.S)
+        tab = {k_: v_ == "true" for k_, v_ in re.findall(r'"([^"]+)":\s*(true|false)', m.group(1))} if m else {}
+        if not tab or True not in tab.values() or False not in tab.values():
+            tab = {"1": True, "0": False}
+        _cache["spell"] = tab
+    return _cache["spell"]
 
 
 def nrentw_of(code):
